@@ -55,8 +55,17 @@ Proof.
   repeat match goal with |- _ /\ _ => split end; try (apply slots_b); vm_compute; reflexivity.
 Qed.
 
+From CKC Require Import Model.Proj Proofs.Total Proofs.ProjC05.
+(* the `rankp` line of the correspondence check is the constant `ok ok ok ok ok` (five slots: one more `ok`) on
+   card-or-blank slots: true = the entry point returned normally *)
+Theorem C05_projection : forall chk n ws,
+  (n = 5 \/ n = 6 \/ n = 7)%nat -> Slots n ws ->
+  proj_rankp chk ws = [true; true; true; true; true] ++ (if Nat.eqb n 5 then [true] else []).
+Proof. exact proj_rankp_const. Qed.
+
 Print Assumptions C05_search_total.
 Print Assumptions C05_rank_total.
 Print Assumptions C05_blank_five.
 Print Assumptions C05_product_path_total.
 Print Assumptions C05_unrepaired_refuted.
+Print Assumptions C05_projection.
